@@ -116,11 +116,90 @@ fn run_one(run: usize, scn: &Value, out: &mut Out) {
     }
 }
 
+/// A node whose WAL disk misbehaves: whatever the node answers, a command answered with an error must
+/// not have changed what the node serves (C17 at node level).
+fn errs_one(run: usize, rng: &mut impl Rng, out: &mut Out) {
+    let mut script = HashMap::new();
+    for _ in 0..rng.gen_range(1..=4) {
+        script.insert(rng.gen_range(2..=20usize), ["fail", "torn", "diskfull", "fail"][rng.gen_range(0..4)].to_string());
+    }
+    let store = ScriptedWalStore::new(script.clone(), false);
+    let config = WalConfig {
+        enabled: true,
+        wal_dir: "/nonexistent".into(),
+        fsync_policy: FsyncPolicy::Always,
+        max_file_size: [200usize, 100000][rng.gen_range(0..2)],
+        group_commit_max_entries: rng.gen_range(1..=3),
+        group_commit_max_wait: Duration::from_micros(200),
+        truncation_check_interval: Duration::from_secs(3600),
+    };
+    out.emit(&json!({"a": "reset", "run": run}));
+    let cmds: Vec<Vec<String>> = (0..8)
+        .map(|i| {
+            let k = ["nk1", "nk2"][rng.gen_range(0..2)].to_string();
+            match rng.gen_range(0..5) {
+                0 => vec!["SET".into(), k, format!("v{i}")],
+                1 => vec!["SETEX".into(), k, "100".into(), format!("v{i}")],
+                2 => vec!["APPEND".into(), k, "x".into()],
+                3 => vec!["DEL".into(), k],
+                _ => vec!["INCR".into(), format!("c{}", rng.gen_range(0..2))],
+            }
+        })
+        .collect();
+    let rt = tokio::runtime::Builder::new_current_thread().enable_all().start_paused(true).build().unwrap();
+    let st2 = store.clone();
+    let res = catch(|| {
+        rt.block_on(async move {
+            let clock = HarnessTime(Arc::new(Mutex::new(1000)));
+            let mut node = ReplicatedShardedState::with_time_source(ReplicationConfig { replica_id: 1, ..Default::default() }, clock);
+            let (handle, task) = spawn_wal_actor(st2.clone(), config).unwrap();
+            node.set_wal_handle(handle.clone());
+            let mut evs = Vec::new();
+            for argv in &cmds {
+                let refs: Vec<&str> = argv.iter().map(|x| x.as_str()).collect();
+                let key = argv[1].clone();
+                let view = |n: &ReplicatedShardedState<HarnessTime>, key: String| {
+                    let n = n.clone();
+                    async move {
+                        let g = n.execute(crate::repl::argv_cmd(&["GET", &key])).await;
+                        let t = n.execute(crate::repl::argv_cmd(&["TTL", &key])).await;
+                        format!("{g:?} {t:?}")
+                    }
+                };
+                let before = view(&node, key.clone()).await;
+                let r = node.execute(crate::repl::argv_cmd(&refs)).await;
+                let after = view(&node, key.clone()).await;
+                evs.push(json!({"a": "nodecmd", "argv": argv, "err": matches!(r, RespValue::Error(_)), "reply": format!("{r:?}"), "before": before, "after": after}));
+            }
+            handle.shutdown().await;
+            let _ = task.await;
+            evs
+        })
+    });
+    match res {
+        Ok(evs) => {
+            for mut e in evs {
+                e["run"] = json!(run);
+                e["faults"] = json!(script.iter().map(|(k, v)| json!([k, v])).collect::<Vec<_>>());
+                out.emit(&e);
+            }
+        }
+        Err(p) => out.emit(&json!({"a": "nodecmd", "run": run, "argv": [], "err": true, "reply": format!("panic: {p}"), "before": "", "after": "panic"})),
+    }
+}
+
 pub fn main(args: &[String]) -> i32 {
     let a = Args::parse(args);
     quiet_panics();
     let mut out = Out::create(&a.str("out", "node_trace.ndjson"));
     let mut rng = rng(a.u64("seed", 1));
+    if a.pos.first().map(|s| s.as_str()) == Some("errs") {
+        for i in 0..a.usize("n", 100) {
+            errs_one(i + 1, &mut rng, &mut out);
+        }
+        println!("{{\"events\": {}}}", out.finish());
+        return 0;
+    }
     for i in 0..a.usize("n", 100) {
         let nw = rng.gen_range(1..=8u64);
         let mut ws: Vec<u64> = (1..=nw).collect();
